@@ -1,5 +1,8 @@
 import Driver.Common
 import Driver.C18
+import Driver.C09
+import Driver.C08
+import Driver.Registry
 import Driver.C16
 import Driver.C20
 
@@ -10,6 +13,9 @@ def main (args : List String) : IO UInt32 := do
     let impl ← Driver.readLines implPath
     let t ← match model with
       | "c18" => Driver.C18.run ops impl
+      | "c09" => Driver.C09.run ops impl
+      | "c08" => Driver.C08.run ops impl
+      | "registry" => Driver.Registry.run ops impl
       | "c16" => Driver.C16.run ops impl
       | "c20" => Driver.C20.run ops impl
       | _ => do IO.eprintln s!"unknown model {model}"; return 2
